@@ -258,9 +258,6 @@ class Hist:
             b = self.actors[mr["actor"]] if mr["actor"] < len(self.actors) else None
             if b is None or b is a:
                 raise Skip("no foreign actor")
-            if not a.model.metabolites.has_id(mr["id"]):
-                # the model would adopt an object that another model still owns: outside the domain
-                raise Skip("foreign metabolite new to the model")
             self.stats["probe:operand_from_another_live_model"] += 1
             return self.met(b, mr["id"])
         raise Skip(t)
@@ -689,12 +686,27 @@ class Hist:
     def do_add_mets(self, a, op, env):
         r = self.rxn(a, op["r"])
         d = {self.metref(a, mr): c for mr, c in op["mets"]}
-        r.add_metabolites(d, combine=op.get("combine", True))
+        try:
+            r.add_metabolites(d, combine=op.get("combine", True))
+        finally:
+            self._reuse(op, d)
+
+    def _reuse(self, op, d):
+        """The argument stays in the caller's hands: the caller reuses it for something else afterwards."""
+        if op.get("reuse"):
+            self.stats["probe:argument_reused_by_caller"] += 1
+            for k in list(d):
+                d[k] = 97.0
+            if op["reuse"] == "clear":
+                d.clear()
 
     def do_sub_mets(self, a, op, env):
         r = self.rxn(a, op["r"])
         d = {self.metref(a, mr): c for mr, c in op["mets"]}
-        r.subtract_metabolites(d, combine=op.get("combine", True))
+        try:
+            r.subtract_metabolites(d, combine=op.get("combine", True))
+        finally:
+            self._reuse(op, d)
 
     def do_imul(self, a, op, env):
         r = self.rxn(a, op["r"])
@@ -708,8 +720,6 @@ class Hist:
             if not (0 <= bi < len(self.actors)) or self.actors[bi] is a:
                 raise Skip("no foreign actor")
             o = self.rxn(self.actors[bi], op["r2"])
-            if any(not a.model.metabolites.has_id(m.id) for m in o.metabolites):
-                raise Skip("foreign metabolite new to the model")
             self.stats["probe:operand_from_another_live_model"] += 1
             return o
         d = self.detached.get(op["r2"])
@@ -1541,6 +1551,8 @@ def gen_op(rng, H, sw):
         op["r"] = rid()
     elif k in ("add_mets", "sub_mets"):
         op.update(r=rid(), mets=metlist(), combine=rng.random() < 0.6)
+        if rng.random() < 0.2:
+            op["reuse"] = rng.choice(["values", "clear"])
         if rids and rng.random() < 0.3 and ref.rxns[op["r"]]["mets"]:
             # cancel an existing coefficient exactly (coefficient becomes zero -> removed)
             m0 = rng.choice(sorted(ref.rxns[op["r"]]["mets"]))
